@@ -623,3 +623,194 @@ def check_prefix(chk, side, path, tag):
         return
     if not path.startswith(p):
         chk.fail("match-outside-prefix", {"side": side, "path": path, "tag": tag}, {"prefix": p})
+
+
+# --------------------------------------------------------------------------
+# stateful streams: derived matchers (with_env, copy with a root, concat)
+# created AFTER their source was used.  Implementation-only oracle: history
+# independence — every observation on the derived matcher equals the same
+# observation on a matcher derived by the same chain from never-used objects.
+# --------------------------------------------------------------------------
+NESTED_BASES = [
+    # (pattern, env pairs, root)
+    ("{l}browser/**/*.ftl", [("l", "{l10n_base}/{locale}/"), ("l10n_base", "/src/l10n")], None),
+    ("{l}browser/**", [("l", "{l10n_base}/{locale}/"), ("l10n_base", "l10n")], None),
+    ("{l}toolkit/*.ftl", [("l", "{l10n_base}/{locale}/"), ("l10n_base", "/src/l10n"), ("locale", "de")], None),
+    ("res/values-{android_locale}/strings.xml", [], None),
+    ("{base}/res/values-{android_locale}/*.xml", [("base", "app")], None),
+    ("res/values-{android_locale}/strings.xml", [("locale", "en-US")], None),
+    ("{l10n_base}/{locale}/browser/*.ftl", [("l10n_base", "l10n"), ("locale", "de")], "/src/one"),
+    ("{l10n_base}/{locale}/browser/{file}.ftl", [("l10n_base", "l10n"), ("locale", "de")], "/src/one"),
+    ("{l10n_base}/{locale}/", [("l10n_base", "l10n"), ("locale", "de")], None),
+    ("{w}/x/*", [("w", "{v}-n"), ("v", "q")], None),
+]
+CHAIN_LOCALES = ["de", "fr", "sr-Latn", "he", "pt-BR", "id-ID"]
+TAILS = ["a.ftl", "x/a.ftl", "browser/a.ftl", "browser/x/y/a.ftl", "strings.xml", "toolkit/about.ftl",
+         "browser/menu.ftl", "x/q", ""]
+
+
+def gen_op(rng, names):
+    k = rng.random()
+    if k < 0.5:
+        env = []
+        for name in rng.sample(["locale", "l10n_base", "file", "v", "base", "unused"], rng.choice([1, 1, 2])):
+            val = {"locale": rng.choice(CHAIN_LOCALES), "l10n_base": rng.choice(["/other/l10n", "l10n-x"]),
+                   "file": "menu", "v": rng.choice(["q", "zz"]), "base": "lib", "unused": "u"}[name]
+            env.append((name, val))
+        if rng.random() < 0.1:
+            env = []
+        return ("with_env", env)
+    if k < 0.75:
+        return ("root", rng.choice(["/src/two", "/r", None]))
+    return ("concat", rng.choice(["toolkit/about.ftl", "/**", "/sub/*.ftl", "x", "{locale}.ftl"]),
+            rng.choice([[], [], [("locale", "fr")]]))
+
+
+def derive(m, op):
+    from compare_locales.paths.matcher import Matcher
+    if op[0] == "with_env":
+        return m.with_env(dict(op[1]))
+    if op[0] == "root":
+        return Matcher(m, root=op[1])
+    return m.concat(Matcher(op[1], env=dict(op[2])))
+
+
+def op_sx(op):
+    if op[0] == "with_env":
+        return [0, [[canon(k), canon(v)] for k, v in op[1]]]
+    if op[0] == "root":
+        return [1, [] if op[1] is None else [canon(op[1])]]
+    return [2, canon(op[1]), [[canon(k), canon(v)] for k, v in op[2]]]
+
+
+def use(m, paths, partner):
+    """what a caller does with a matcher before deriving from it (fills its regex cache)"""
+    for p in paths:
+        try:
+            m.match(p)
+        except Exception:  # noqa
+            pass
+    for f in (lambda: m.prefix, lambda: str(m), lambda: m.sub(partner, paths[0]) if paths else None):
+        try:
+            f()
+        except Exception:  # noqa
+            pass
+
+
+def build_chain(base, ops, used, paths, partner_side):
+    m = mk(base)
+    partner = mk(partner_side)
+    for op in ops:
+        if used:
+            use(m, paths, partner)
+        m = derive(m, op)
+    return m, partner
+
+
+def observe(m, partner, paths):
+    sub_c = lambda r: [] if r is None else [canon(r)]  # noqa: E731
+    return [impl_result(lambda: str(m)), impl_result(lambda: m.prefix),
+            [impl_result(lambda p=p: m.match(p), canon_dict) for p in paths],
+            [impl_result(lambda p=p: m.sub(partner, p), sub_c) for p in paths],
+            [impl_result(lambda p=p: partner.sub(m, p), sub_c) for p in paths]]
+
+
+def chain_paths(rng, base, ops, partner_side):
+    """paths around the expansions / prefixes of the chain's matchers, also for other locales"""
+    pool = set()
+    for loc in rng.sample(CHAIN_LOCALES, 2) + [None]:
+        try:
+            m = mk(base)
+            stages = [m]
+            for op in ops:
+                if op[0] == "with_env" and loc is not None:
+                    op = ("with_env", [(k, (loc if k == "locale" else v)) for k, v in op[1]])
+                m = derive(m, op)
+                stages.append(m)
+            if loc is not None:
+                stages.append(m.with_env({"locale": loc}))
+        except Exception:  # noqa
+            continue
+        for st in stages:
+            for f in (lambda: st.prefix, lambda: str(st)):
+                try:
+                    pre = f()
+                except Exception:  # noqa
+                    continue
+                for t in rng.sample(TAILS, 3):
+                    pool.add(pre + t)
+                    if loc:
+                        pool.add(pre + LOCALES.get(loc, loc) + "/" + t)
+    pool = sorted(pool)
+    rng.shuffle(pool)
+    return pool[:8] or ["x"]
+
+
+def run_stateful(chk, model, n, suite="STATEFUL"):
+    rng = chk.rng
+    reqs, impl, desc = [], [], []
+    for i in range(n):
+        if rng.random() < 0.6:
+            base = rng.choice(NESTED_BASES)
+        else:
+            c = gen_case(rng)
+            base = c.a
+        partner_side = rng.choice([("/stage/{locale}/**", [], None), ("ref/**/*.ftl", [], None),
+                                   ("out/*", [("locale", "fr")], None)])
+        ops = [gen_op(rng, None) for _ in range(rng.choice([1, 1, 2, 3]))]
+        if not ascii_names_only(base[0], *[v for _, v in base[1]]):
+            continue
+        paths = chain_paths(rng, base, ops, partner_side)
+        case = {"base": base, "ops": ops, "partner": partner_side, "paths": paths}
+        try:
+            fresh, fp = build_chain(base, ops, False, paths, partner_side)
+            fresh_err = None
+        except Exception as e:  # noqa
+            fresh, fresh_err = None, type(e).__name__
+        try:
+            usedm, up = build_chain(base, ops, True, paths, partner_side)
+            used_err = None
+        except Exception as e:  # noqa
+            usedm, used_err = None, type(e).__name__
+        chk.count(("stateful", base, tuple(map(repr, ops)), tuple(paths)))
+        chk.hist("chain_ops", "+".join(op[0] for op in ops))
+        if fresh is None or usedm is None:
+            if fresh_err != used_err:
+                chk.fail("matcher-history-dependence", case, {"fresh": fresh_err, "used": used_err})
+            got = raised(TAGS.get(fresh_err, 99)) if fresh_err in TAGS else [2, canon(str(fresh_err))]
+        else:
+            a = observe(fresh, fp, paths)
+            b = observe(usedm, up, paths)
+            if a != b:
+                names = ["str", "prefix", "match", "sub-to-partner", "sub-from-partner"]
+                diff = {}
+                for nm, x, y in zip(names, a, b):
+                    if x != y:
+                        if nm in ("str", "prefix"):
+                            diff[nm] = {"fresh": x, "after-use": y}
+                        else:
+                            j = next(k for k in range(len(paths)) if x[k] != y[k])
+                            diff[nm] = {"path": paths[j], "fresh": x[j], "after-use": y[j]}
+                chk.fail("matcher-history-dependence", case, diff)
+            # a derived matcher that has an expansion matches it and stays inside its prefix
+            s, pre = b[0], b[1]
+            if s[0] == 0 and pre[0] == 0:
+                own = common.l2s(s[1])
+                try:
+                    d = usedm.match(own)
+                    d0 = fresh.match(own)
+                except Exception:  # noqa
+                    d = d0 = None
+                if d0 is not None and d is None:
+                    chk.fail("derived-rejects-own-expansion", case, {"expansion": own})
+                for p, mres in zip(paths, b[2]):
+                    if mres[0] == 0 and mres[1] and not p.startswith(common.l2s(pre[1])):
+                        chk.fail("match-outside-prefix", case, {"path": p, "prefix": common.l2s(pre[1])})
+            got = ok(a)
+        desc.append(case)
+        impl.append(got)
+        reqs.append((14, side_sx(base) + [[op_sx(o) for o in ops], [canon(p) for p in paths]]
+                     + side_sx(partner_side)))
+    if model:
+        outs = model.call(reqs)
+        chk.correspond(suite, desc, impl, outs)
